@@ -218,6 +218,24 @@ fn main() {
                         return Err(format!("dispatch probe: expected one call of {}, recorded {:?}", exp, c.counts));
                     }
                 }
+            } else if let Some(chunks) = step.get("byte_events").and_then(|c| c.as_array()) {
+                // feed byte chunks to a NEW ByteParser of the real crate whose listener is the crate's own Counter: event-level probe
+                let c = std::sync::Arc::new(std::sync::Mutex::new(memterm::counter::Counter::new()));
+                let mut bp = memterm::byte_parser::ByteParser::new(c.clone());
+                for ch in chunks {
+                    let bytes: Vec<u8> = ch.as_array().map(|a| a.iter().map(|x| x.as_u64().unwrap() as u8).collect()).unwrap_or_default();
+                    bp.feed(&bytes);
+                }
+                let counts = c.lock().map_err(|_| "counter mutex poisoned".to_string())?.counts.clone();
+                println!("BYTE-EVENTS-PROBE {} -> recorded calls: {:?}", step["byte_events"], counts);
+                if let Some(exp) = step.get("expect_counts").and_then(|e| e.as_object()) {
+                    for (name, want) in exp {
+                        let got = counts.get(name.as_str()).copied().unwrap_or(0) as i64;
+                        if Some(got) != want.as_i64() {
+                            return Err(format!("byte-events probe: expected {} call(s) of {}, recorded {}", want, name, got));
+                        }
+                    }
+                }
             } else if let Some(set) = step.get("set") {
                 let mut s = screen.lock().map_err(|_| "listener mutex poisoned".to_string())?;
                 apply_set(&mut s, set);
